@@ -181,7 +181,7 @@ pub fn run(run: &mut Run) {
         "out-of-range indices are outside the domain (they index out of bounds by contract)".into(),
     ];
     let miri = run.leg.as_deref() == Some("miri");
-    let n = if miri { 24 } else { run.tier.n(6000, 400_000) };
+    let n = if miri { 24 } else { run.tier.n(120_000, 4_000_000) };
     run.sub("history", n, |l, idx, rng| {
         let big = idx % 16 == 15;
         let rows = if big { rng.range(1, 12) } else { rng.range(1, 6) };
